@@ -6,8 +6,11 @@ from common import *
 NO_MSGS = ["No dependencies", "No exports", "No bindings", "No functions", "No index macros", "No code macros",
            "No spans", "No files", "No macro expansions"]
 
-KNOWN_CLASSES = ("uasm-marker-in-text:", "uasm-string-reads-as-number:", "uasm-complex-nonfinite",
-                 "uasm-float-not-roundtrip", "uasm-test-assert-count-lost")
+# violation keys of the search / ties (all repaired in /repo; they stay as regression classes):
+#   uasm-marker-in-text:<MARKER> (0f91cb1), uasm-test-assert-count-lost (69a2f06), uasm-string-reads-as-number:<s> (6da1960),
+#   uasm-complex-nonfinite (c00f690), uasm-float-not-roundtrip (41a5003), uasm-nan-sign-lost (1df8995),
+#   uasm-read-panics:<mutation>:<msg> (c00f690), uasm-reread-marks-wrong / uasm-reread-constant-malformed / uasm-reread-constant-count,
+#   uasm-reread-value-marks-wrong, uasm-read-fails:<msg>, uasm-write-panics:<msg>, uasm-run-differs:<kind>:<program>, uasm-map-layout-differs
 
 
 def coq_text(s):
@@ -93,16 +96,20 @@ def coq_mval(rec):
 def run(r):
     quick = r.tier == "quick"
     r.trusted += TRUSTED_COMMON + [
-        "serde / serde_json themselves (the derive semantics of untagged and tagged enums is transcribed by hand in UasmValue.v; number printing/parsing is not modelled: a float literal is taken to denote the nearest double, which serde_json with float_roundtrip guarantees; that the written literal is the shortest one is not modelled)",
-        "searching a pattern in a text by code points equals searching it by UTF-8 bytes",
-        "per-line parsers of from_uasm other than values (nodes, spans, bindings, index/code macro payloads) are covered by the search only",
-        "uiua's own Node equality (hash based) and Value equality are used to compare re-read trees and run results",
+        "serde / serde_json themselves: the derive semantics of tagged and untagged enums (first variant that parses), of tuple variants, of structs read from sequences, of unit variants read from {name:null} and of deny_unknown_fields is transcribed by hand in UasmValue.v and tied to the implementation on every run; number printing/parsing is not modelled: a float literal is taken to denote the nearest double (serde_json with float_roundtrip), and that the written literal is the shortest one is not modelled (python reproduces every written text byte for byte from the tree it hands to Coq, float literals verbatim)",
+        "searching / comparing a text by code points equals doing it by UTF-8 bytes",
+        "the per-line parsers of from_uasm other than values (nodes, spans, bindings, dependency/export lines, index/code macro payloads, file and macro-expansion lines) are not modelled: covered by the round-trip-and-run search and by the never-panics mutation stream only",
+        "uiua's own Node equality (hash based), Value equality / ordering (C15) and Value::show are used to compare re-read trees, run results and rows; uiua::verif::check_value and ::flags (hooks) are used to judge re-read constants",
+        "labels and map keys are modelled at the top level of a value only and tied, not proved; ArrayRep::Full carrying a MapKeys struct (label together with keys, or raw hash tables with tombstones) is covered by the search (directed family) only",
     ]
     r.assumptions += [
-        "C17_framing_roundtrip: every written line is newline-free, not blank, does not end in white space, the first line of a trimmed section does not start with white space (sections_wf) and every written line contains a character other than A-Z and blank (written_shape); both are checked on the real to_uasm output of every generated assembly by the tie",
-        "C17_value_json_roundtrip: only invariants of the term encoding - length(data) = product(shape) (wf_shape, C05), bytes <= 255, binary64 patterns < 2^64 (repr_ok); the theorem is about values without label / map keys (those are modelled at the top level and tied, not proved; C17_value_json_refuted_map is an open defect there)",
-        "run behaviour of the re-read assembly is compared on finitely many run-time arguments per program (search), not proved for all arguments",
-        "C17_reread_marks_truthful is about the scan over the comparisons of adjacent rows; that the rows are compared by ArrayCmpSlice as C15 models it is checked by recomputing the comparisons with Value::cmp in the harness",
+        "C17_framing_roundtrip (current reader: whole-line markers, TEST ASSERTS cut off first): every written line is newline-free, not blank, does not end in white space, the first line of a trimmed section does not start with white space (sections_wf) and every written line contains a character other than A-Z and blank (written_shape); both are checked on the real to_uasm output of every generated assembly by the framing tie",
+        "C17_framing_roundtrip_pre / _refuted_pre / _mid / C17_test_asserts_lost_pre are records about the models of the readers before /repo 0f91cb1 and 69a2f06",
+        "C17_value_json_roundtrip(_fuel,_exact): only invariants of the term encoding - length(data) = product(shape) (wf_shape, C05), bytes <= 255, binary64 patterns < 2^64 (repr_ok); the result is the value itself except that an empty number array comes back with byte storage (norm); the theorem is about values without label / map keys",
+        "C17_value_json_refuted_{string,complex,nan,map}_pre are records about the model of the representation before /repo 6da1960, c00f690, 1df8995, 71ff4d9",
+        "C17_reread_marks_truthful is about the reader's scan over the comparisons of adjacent rows; that rows are compared as C15 models it is not re-proved here: the harness recomputes the comparisons with Value::cmp and the tie compares the model's marks with the implementation's flags",
+        "run behaviour of the re-read assembly is compared on finitely many run-time argument stacks per program (search), not proved for all arguments; runs cut off by the 2 s execution limit are compared on the error only; programs whose original assembly gives different results on two runs (random numbers, clocks) are left out and counted",
+        "constants that check_value already rejects in the ORIGINAL assembly (one in tests/map.ua: a fixed empty map whose keys are rows without elements, a limit of the validator) are skipped and counted (constants_malformed_already_in_the_original)",
     ]
     if not r.harness(["c17"]):
         return
@@ -212,11 +219,23 @@ def run(r):
         r.sample({"search": v["violation"], "program": v["src"][:120], "detail": v["detail"][:200]})
     r.coverage["evaluations"] = r.coverage.get("evaluations", 0) + len(cases) + s["runs"]
     r.coverage["distinct_nontrivial"] = s["reread_ok"]
-    r.coverage["rule"] = ("search: every chunk of /repo/tests/*.ua and /repo/examples/*.ua (and each whole file), a fixed list of counterexamples, and programs generated from "
-                          "78 templates (bindings, comments, labels, inverses, custom inverses, index and code macros, modules, data definitions, switch/try/assert, format strings, "
-                          "printing, loops, fills) filled with constants of every element type (NaN, infinities, reserved NaNs, complex, empty and rank-5 arrays, maps, labels) and "
-                          "strings/names/comments containing the section words and the reserved number spellings; each compiled program is written, re-read (under catch) and both "
-                          "assemblies are run on 2-3 argument stacks with the safe backend (2 s limit): results, error text and captured stdout must agree; non-trivial = re-read succeeded")
+    r.coverage["rule"] = ("search, in this order: (1) a fixed regression corpus: every program that exposed a defect (section words in strings/names/comments, "
+                          "reserved number spellings as strings, complex constants with non-finite parts, the float that read back 1 ulp off, negative NaN, failing and passing "
+                          "top-level assertions, maps joined with themselves, the demo of the marks seed) and one instance of each of 78 templates; (2) two directed families: "
+                          "labelled map constants whose hash table holds tombstones from a compile-time remove, looked up at run time for every key (about 60 programs), and array "
+                          "constants (28: unsorted, sorted up/down, with ties, with NaN; numbers, booleans, characters, boxes, complex; rank 1-2) kept from folding by an impure "
+                          "`pop floor rand` and consumed by 24 mark-trusting primitives and compositions plus member/index-of, function and boxed variants (756 programs); "
+                          "(3) every chunk of /repo/tests/*.ua and /repo/examples/*.ua and each whole file; (4) programs generated from the 78 templates (bindings, comments, "
+                          "labels, inverses, custom inverses, index and code macros, modules, data definitions, switch/try/assert, format strings, printing, loops, fills) filled "
+                          "with constants of every element type (NaN, infinities, reserved NaNs, complex, empty and rank-5 arrays, maps, labels) and strings/names/comments "
+                          "containing the section words and the reserved spellings.  Each compiled program is written with to_uasm and re-read with from_uasm under catch (must "
+                          "succeed); every constant of the re-read assembly (push nodes anywhere in root/functions/macros, const bindings, recursively through boxes) must pass "
+                          "check_value and carry exactly the truthful sortedness marks, and the number of constants must be unchanged; both assemblies are run on 1-3 argument "
+                          "stacks with the safe backend (2 s limit): stack values (bit for bit, shape, element class, label, map-ness, printed form), error text and captured "
+                          "stdout must agree.  ties: values<->JSON (generated values of every type incl. arbitrary 64-bit patterns, top-level labels and maps, and hand-written "
+                          "texts that exercise the reader's variant choice; model's text = implementation's text, model's reading = implementation's reading, marks of the value "
+                          "read back = recompute_marks); framing (real to_uasm texts and 11 kinds of mutated texts: failure index / section counts equal the model's, premises "
+                          "of the framing theorem hold of real texts, from_uasm never panics).  non-trivial = programs whose re-read succeeded")
     r.log("search: %s" % {k: s[k] for k in ("programs", "compiled", "reread_ok", "runs", "run_errors", "with_output", "nondeterministic", "violations")})
 
 
